@@ -63,6 +63,8 @@ class FakeRedis(object):
         if f in h:
             return 0
         h[f] = _enc(value)
+        if len(h) == 1 and getattr(self, 'on_new_hash', None) is not None:
+            self.on_new_hash(key)          # harness bookkeeping: a new record exists from this instant on
         return 1
 
     def hset(self, key, field, value):
@@ -184,9 +186,11 @@ class _Pipe(object):
             self.r._tick('pipeline-execute')
             hook, self.r.yield_hook = self.r.yield_hook, None     # MULTI/EXEC is atomic
             try:
-                return [getattr(self.r, n)(*a, **k) for n, a, k in stack]
+                out = [getattr(self.r, n)(*a, **k) for n, a, k in stack]
             finally:
                 self.r.yield_hook = hook
+            self.r._tick('pipeline-reply')        # the commands have taken effect on the server, the reply is still on its way
+            return out
         finally:
             self.in_flight = False
             self.ops = []
